@@ -43,6 +43,20 @@ func transformBalances(b channel.Balances, numParts int, indexMap []channel.Inde
 	return
 }
 
+// validIndexMap returns whether indexMap maps each of numParts participants to
+// a participant of a channel with numPartsParent participants.
+func validIndexMap(indexMap []channel.Index, numParts, numPartsParent int) bool {
+	if len(indexMap) != numParts {
+		return false
+	}
+	for _, idx := range indexMap {
+		if int(idx) >= numPartsParent {
+			return false
+		}
+	}
+	return true
+}
+
 func (c *Client) rejectProposal(responder *UpdateResponder, reason string) {
 	ctx, cancel := context.WithTimeout(c.Ctx(), responseTimeout)
 	defer cancel()
